@@ -160,13 +160,22 @@ pub mod thread {
     use std::sync::Arc;
     use std::sync::atomic::{AtomicBool, Ordering};
 
-    pub struct JoinHandle<T> { inner: rt::thread::JoinHandle<T>, fin: Arc<AtomicBool> }
+    ///
+    /// Join handle of a thread started through the shim. A panic is caught at the top of the thread (so that the controlled
+    /// runtime sees the thread end instead of aborting the execution) and handed to `join`, as std does.
+    ///
+    pub struct JoinHandle<T> { inner: rt::thread::JoinHandle<std::thread::Result<T>>, fin: Arc<AtomicBool> }
 
     impl<T> JoinHandle<T> {
-        pub fn join(self) -> std::thread::Result<T> { self.inner.join() }
+        pub fn join(self) -> std::thread::Result<T> {
+            match self.inner.join() { Ok(Ok(v)) => Ok(v), Ok(Err(p)) => Err(p), Err(p) => Err(p) }
+        }
         pub fn is_finished(&self) -> bool { self.fin.load(Ordering::SeqCst) }
         pub fn thread(&self) -> &Thread { self.inner.thread() }
     }
+
+    /// Number of threads started through the shim that ended by panicking (in this process)
+    pub static PANICKED_THREADS: std::sync::atomic::AtomicUsize = std::sync::atomic::AtomicUsize::new(0);
 
     /// Sets the finished flag when the thread's closure ends, normally or by unwinding
     struct Fin(Arc<AtomicBool>);
@@ -189,8 +198,10 @@ pub mod thread {
             let inner   = b.spawn(move || {
                 #[cfg(desync_verif_real)]
                 super::REAL_TASK.with(|t| t.set(task));
-                let _fin = fin2;
-                f()
+                let r = std::panic::catch_unwind(std::panic::AssertUnwindSafe(f));
+                if r.is_err() { PANICKED_THREADS.fetch_add(1, Ordering::SeqCst); }
+                drop(fin2);
+                r
             })?;
             Ok(JoinHandle { inner, fin })
         }
